@@ -5,6 +5,11 @@ package main
 // with HcModel/PairVerify.lean on symbolic histories over 1-2 connections and a changing pairing store.
 
 import (
+	"encoding/hex"
+	"encoding/json"
+	"io/ioutil"
+	"path/filepath"
+	"sync/atomic"
 	"os"
 	"bufio"
 	"bytes"
@@ -535,6 +540,8 @@ func pvCorpus() [][]pvStep {
 
 func checkC03(c *Ctx) {
 	c03Handover(c)
+	c03ConcurrentLookups(c)
+	c03StaleTemp(c)
 	c03Revocation(c)
 	c03Rekey(c)
 	c03VerifyInterleaved(c)
@@ -1610,4 +1617,110 @@ func c03VerifyInterleaved(c *Ctx) {
 		c.Count(id, true, "stream:verify-interleaved", "verify-interleaved:"+kind)
 		f.Close()
 	}
+}
+
+// c03ConcurrentLookups: several connections run pair-verify at the same time against a store with two pairings whose
+// entity files have the same size. Half of them are genuine (controller Y), the other half claim controller X with a
+// signature made by Y's key. Free-running: whatever the lookups of different connections share (buffers, caches), a
+// finish is checked against the key stored for the name IT claims — the forged ones are never accepted.
+func c03ConcurrentLookups(c *Ctx) {
+	id := "concurrent-lookups#0"
+	if c.Skip(id) {
+		return
+	}
+	r := c.CaseRng("concurrent-lookups", 0)
+	a := accessory.NewSwitch(accessory.Info{Name: "Sw"})
+	f, err := newAccFixture(c, "00102003", a.Accessory)
+	if err != nil {
+		c.Violate("pair-verify fixture cannot be built", id, nil, "fixture", err.Error())
+		return
+	}
+	defer f.Close()
+	X, Y := newRefIdentity(r, "ctrl-X"), newRefIdentity(r, "ctrl-Y")
+	f.db.SaveEntity(db.NewEntity(X.Name, X.Pub, nil))
+	f.db.SaveEntity(db.NewEntity(Y.Name, Y.Pub, nil))
+	forged := &refIdentity{Name: X.Name, Pub: Y.Pub, Priv: Y.Priv}
+	workers := 8
+	deadline := time.Now().Add(time.Duration(c.Pick(1200, 8000)) * time.Millisecond)
+	var accepted, attempts, genuineFailed int64
+	var firstMu sync.Mutex
+	first := ""
+	var wg sync.WaitGroup
+	for w := 0; w < workers; w++ {
+		wg.Add(1)
+		go func(w int) {
+			defer wg.Done()
+			wr := rand.New(rand.NewSource(int64(w)*7717 + 3))
+			for k := 0; time.Now().Before(deadline); k++ {
+				addr := fmt.Sprintf("10.5.%d.%d:%d", w, k%250, 6000+k%1000)
+				who := Y
+				if w%2 == 0 {
+					who = forged
+				}
+				vr := refPairVerify(wr, f.Post(addr), who, nil)
+				f.CloseConn(addr)
+				atomic.AddInt64(&attempts, 1)
+				switch {
+				case who == forged && vr.Shared != nil:
+					atomic.AddInt64(&accepted, 1)
+					firstMu.Lock()
+					if first == "" {
+						first = fmt.Sprintf("attempt %d of worker %d", k, w)
+					}
+					firstMu.Unlock()
+				case who == Y && vr.Shared == nil:
+					atomic.AddInt64(&genuineFailed, 1)
+				}
+			}
+		}(w)
+	}
+	wg.Wait()
+	in := map[string]interface{}{"stored_pairings": []string{X.Name, Y.Name}, "connections_at_a_time": workers, "half_of_them": "finish naming ctrl-X, signed with ctrl-Y's key", "the_others": "genuine ctrl-Y", "attempts": attempts}
+	if accepted > 0 {
+		c.Violate("pair-verify verified a connection (or answered success) without a valid signature by the stored long-term key over this exchange", id, in,
+			"every finish that names ctrl-X but is signed by ctrl-Y's key is refused", fmt.Sprintf("%d accepted (first: %s)", accepted, first))
+	}
+	if genuineFailed > 0 {
+		c.Violate("pair-verify did not verify a connection that presented a valid finish", id, in, "every genuine finish of ctrl-Y is accepted", fmt.Sprintf("%d refused", genuineFailed))
+	}
+	c.Count(id, true, "stream:concurrent-lookups")
+	c.Extra("concurrent_lookup_attempts", attempts)
+}
+
+// c03StaleTemp: a pairing whose storage write was interrupted before the rename is NOT stored — only its temporary file
+// is there (listing shows no such controller, the accessory advertises itself accordingly). A finish of that controller
+// must be refused like that of any unknown controller.
+func c03StaleTemp(c *Ctx) {
+	id := "stale-temp-pairing#0"
+	if c.Skip(id) {
+		return
+	}
+	r := c.CaseRng("stale-temp-pairing", 0)
+	a := accessory.NewSwitch(accessory.Info{Name: "Sw"})
+	f, err := newAccFixture(c, "00102003", a.Accessory)
+	if err != nil {
+		c.Violate("pair-verify fixture cannot be built", id, nil, "fixture", err.Error())
+		return
+	}
+	defer f.Close()
+	Z := newRefIdentity(r, "ctrl-Z")
+	b, _ := json.Marshal(db.NewEntity(Z.Name, Z.Pub, nil))
+	tmp := filepath.Join(f.dir, hex.EncodeToString([]byte(Z.Name))+".entity.tmp")
+	if err := ioutil.WriteFile(tmp, b, 0644); err != nil {
+		fatal("write %s: %v", tmp, err)
+	}
+	in := map[string]interface{}{"left_in_the_storage_directory": filepath.Base(tmp), "content": "the complete entity of ctrl-Z (its write was killed before the rename)"}
+	if es, err := f.db.Entities(); err == nil {
+		for _, e := range es {
+			if e.Name == Z.Name {
+				c.Violate("a pairing whose write was interrupted is listed as stored", id, in, "not listed", "listed")
+			}
+		}
+	}
+	addr := "10.6.0.1:6000"
+	if vr := refPairVerify(r, f.Post(addr), Z, nil); vr.Shared != nil {
+		c.Violate("pair-verify verified a connection (or answered success) without a valid signature by the stored long-term key over this exchange", id, in,
+			"refused: no pairing is stored for ctrl-Z", "verified")
+	}
+	c.Count(id, true, "stream:stale-temp-pairing")
 }
